@@ -1,7 +1,7 @@
 SPECIFICATION MCSpec
 CONSTANTS
-  Id = {1, 2}
-  TopT = 4
+  Id = {1, 2, 3}
+  TopT = 5
   InsTS = {0, 1}
   Walls = {1}
   Modes = {"now"}
